@@ -286,3 +286,67 @@ def check_functions(ctx, names, n):
         ctx.count("translated_function", name)
         if mo.get("r") != want:
             ctx.disagree("T2:fn." + name, f"{name}{tuple(args)}: pinned translation {mo.get('r', mo)!r} vs /repo {want!r}", {"op": {"op": "fn", "name": name, "args": args}})
+
+
+def check_address(ctx, n):
+    """T2 of the COMPOSED Address model (Model/AddressT.lean: translated method bodies + hand-written plumbing and is_proto_plus_type)
+    against real `metadata.Address` objects carrying real `Naming` objects: __str__, module_alias, is_proto_plus_type, proto,
+    proto_package, subpackage, python_import (and the name it binds), rel(other), sphinx."""
+    from gapic.schema import metadata, naming as naming_mod
+    r = ctx.rng("pyrt-address")
+    segs = ["acme", "lib", "v1", "v2beta1", "a_b", "x__y", "z_", "cloud", "dep", "common", "types"]
+    mods = ["common", "lib", "import", "type", "other", "x_y", ""]
+    names = ["Book", "Tree", "Branch", "Other", "B"]
+
+    def rand_naming():
+        if r.maybe(0.15):
+            return naming_mod.NewNaming()                                  # the all-default Naming: bool() is False
+        pp = [r.pick(segs) for _ in range(r.randint(1, 4))]
+        deps = tuple(".".join(r.pick(segs) for _ in range(r.randint(1, 3))) for _ in range(r.randint(0, 2)))
+        cls = naming_mod.NewNaming if r.maybe(0.7) else naming_mod.OldNaming
+        return cls(name=r.pick(["Lib", "Cloud Vision", "a-b", ""]), namespace=tuple(r.pick(["Acme", "Google Cloud", "x"]) for _ in range(r.randint(0, 2))),
+                   version=r.pick(["v1", "v2beta1", "", "lib"]), proto_package=".".join(pp), proto_plus_deps=deps)
+
+    def rand_addr(nm, like=None):
+        if like is not None and r.maybe(0.6):                                # same file as `like` more often than chance would give
+            pk, mod = like.package, like.module
+        else:
+            base = nm.proto_package.split(".") if (nm.proto_package and r.maybe(0.5)) else [r.pick(segs) for _ in range(r.randint(1, 4))]
+            if nm.proto_plus_deps and r.maybe(0.3):
+                base = nm.proto_plus_deps[0].split(".")
+            pk, mod = tuple(base + [r.pick(segs) for _ in range(r.randint(0, 1))]), r.pick(mods)
+        parent = tuple(r.pick(names) for _ in range(r.randint(0, 3)))
+        coll = frozenset(r.pick(mods + ["Book"]) for _ in range(r.randint(0, 3)))
+        return metadata.Address(name=r.pick(names), module=mod, package=pk, parent=parent, api_naming=nm, collisions=coll)
+
+    def nv(nm):
+        return {"truthy": bool(nm), "proto_package": nm.proto_package, "version": nm.version, "module_namespace": list(nm.module_namespace),
+                "versioned_module_name": nm.versioned_module_name, "proto_plus_deps": list(nm.proto_plus_deps)}
+
+    def av(a):
+        return {"name": a.name, "module": a.module, "package": list(a.package), "parent": list(a.parent), "collisions": sorted(a.collisions), "naming": nv(a.api_naming)}
+
+    cases = []
+    for _ in range(n):
+        nm = rand_naming()
+        a = rand_addr(nm); b = rand_addr(nm, like=a)
+        cases.append((a, b))
+    outs = ctx.driver.ask([{"op": "addr", "a": av(a), "b": av(b)} for a, b in cases])
+    for (a, b), mo in zip(cases, outs):
+        ctx.case(distinct_key=["addr", repr(a), repr(b)]); ctx.traces += 1
+        imp_ = a.python_import
+        real = {"str": str(a), "module_alias": a.module_alias, "is_proto_plus_type": bool(a.is_proto_plus_type), "proto": a.proto,
+                "proto_package": a.proto_package, "subpackage": list(a.subpackage),
+                "python_import": {"package": list(imp_.package), "module": imp_.module, "alias": imp_.alias},
+                "bound": imp_.alias or imp_.module, "rel": a.rel(b), "sphinx": a.sphinx}
+        ctx.count("address_same_file", a.package == b.package and a.module == b.module)
+        ctx.count("address_import_branch", "no-naming" if not a.api_naming else "own-api" if a.proto_package.startswith(a.api_naming.proto_package)
+                  else "proto-plus-dep" if a.is_proto_plus_type else "pb2")
+        ctx.count("address_alias", bool(a.module_alias))
+        for k, want in real.items():
+            if mo.get(k) != want:
+                ctx.disagree("T2:addr." + k, f"composed Address model {mo.get(k, mo)!r} vs /repo {want!r} for {a!r} (other {b!r})", {"op": {"op": "addr", "a": av(a), "b": av(b)}})
+                break
+        # the theorem `import_binds_str_head`, evaluated on the implementation
+        if a.module and str(a) != ".".join((real["bound"],) + a.parent + (a.name,)):
+            ctx.fail("import-binds-other-name", f"str(address) = {str(a)!r} but its import binds {real['bound']!r}", {"a": av(a)})
